@@ -520,9 +520,6 @@ func c04Triggers(in *c04In, reqHdr http.Header) []string {
 			hadHop = true
 		}
 	}
-	if in.Fails > 0 && in.Retry && c04NonIdempotent(in) {
-		t = append(t, "retry:rewrite-reapplied")
-	}
 	if c04AliasSensitive(in, hadHop) {
 		t = append(t, "request:placeholder-reads-mutated-headers")
 	}
@@ -534,6 +531,9 @@ func c04Triggers(in *c04In, reqHdr http.Header) []string {
 // generator: they only label Sig, so that a regression is reported under the class it belongs to.
 func c04RepairedClasses(in *c04In, reqHdr http.Header) []string {
 	var t []string
+	if in.Fails > 0 && in.Retry && c04NonIdempotent(in) {
+		t = append(t, "retry:rewrite-reapplied") // F-C04-4
+	}
 	if cv := reqHdr["Connection"]; len(cv) >= 2 && c04LaterConnNames(cv, reqHdr) {
 		t = append(t, "request:second-connection-line") // F-C04-1
 	}
@@ -566,7 +566,8 @@ func c04LaterConnNames(vals []string, h http.Header) bool {
 	return false
 }
 
-// does re-running the director / the rules on the already rewritten request change it?
+// would re-running the director / the rules on an already rewritten request change it? (before the
+// repair of F-C04-4 a retry did just that)
 func c04NonIdempotent(in *c04In) bool {
 	for _, a := range in.Targets {
 		u, err := url.Parse(a)
@@ -1091,7 +1092,7 @@ func c04GenProxy1(r *Rand) *c04In {
 		in.Retry = r.Chance(80)
 		in.FailAfterRead = len(in.Targets) > 1 && r.Bool()
 		if r.Chance(65) {
-			// configuration on which re-running the rewrite is harmless: isolates body re-sending
+			// configuration on which re-running the rewrite would be harmless: isolates body re-sending
 			for i := range in.Targets {
 				in.Targets[i] = fmt.Sprintf(c04TargetPool[r.Intn(2)], i)
 			}
